@@ -368,6 +368,7 @@ def make_site_system(
     lo=5.0,
     hi=11.0,
     tail_last_frame_hop=False,
+    p_direct=0.3,
 ) -> SiteSystem:
     """Random margin-controlled site system (see module docstring)."""
     kind, rotated, m = geom.random_lattice(rng, kind, rotate, lo=lo, hi=hi)
@@ -401,7 +402,7 @@ def make_site_system(
     site_frac = geom.separated_points(rng, m, n_sites, sep, face_prob=face_sites)
     if site_frac is None:
         raise Skip('sites do not fit')
-    states = hop_histories(rng, T, n_atoms, n_sites, p_move=p_move)
+    states = hop_histories(rng, T, n_atoms, n_sites, p_move=p_move, p_direct=p_direct)
     if unvisited_member is None:
         unvisited_member = rng.uniform() < 0.5
     if unvisited_member and n_sites > 2:
